@@ -15,7 +15,6 @@ import (
 	"github.com/attestantio/vouch/services/attestationaggregator"
 	nullmetrics "github.com/attestantio/vouch/services/metrics/null"
 	"github.com/prysmaticlabs/go-bitfield"
-	"github.com/rs/zerolog"
 	e2wtypes "github.com/wealdtech/go-eth2-wallet-types/v2"
 )
 
@@ -52,7 +51,7 @@ func (h *c14Spec) Spec(_ context.Context, _ *api.SpecOpts) (*api.Response[map[st
 // epoch and the target number of aggregators coming from the chain specification.
 func c14New(ct *vstub.ChainTime, target uint64, accs *c14Accounts, prov *c14AggProvider, sub *c14AggSubmitter, slotSigner *c14SlotSigner, sgn *c14APSigner) *Service {
 	s, err := New(context.Background(),
-		WithLogLevel(zerolog.Disabled),
+		WithLogLevel(vnd.LogLevel()),
 		WithMonitor(&nullmetrics.Service{}),
 		WithSpecProvider(&c14Spec{spec: map[string]any{"SLOTS_PER_EPOCH": ct.SPE, "TARGET_AGGREGATORS_PER_COMMITTEE": target}}),
 		WithChainTime(ct),
